@@ -99,6 +99,8 @@ class SymVersion:
 
 
 def val(ds):
+    if hasattr(ds, "intval"):
+        return ds.intval
     e = z3.IntVal(0)
     for d in ds:
         e = e * 10 + (d - 48)
